@@ -741,3 +741,139 @@ func c08PersistPromises(p *Prog, r *c08Roles) (out []c08Promise, lost []string) 
 	}
 	return
 }
+
+// ---------- index critical section ----------
+
+type c08CritSec struct {
+	Fn       *ssa.Function
+	Key      string
+	Pos      token.Pos
+	OK       bool
+	How, Why string
+}
+
+// c08HeldUp: a mutex field `field` of the store is held in write mode at `at`
+// — in at's function, or at every call site of that (unexported) function.
+func c08HeldUp(p *Prog, at ssa.Instruction, field string, depth int) bool {
+	fn := at.Parent()
+	for path, mode := range heldAt(fn, heldSet{})[at] {
+		if mode >= modeW && strings.HasSuffix(path, "."+field) {
+			return true
+		}
+	}
+	if depth <= 0 {
+		return false
+	}
+	sites, closed := c09CallSites(p, fn)
+	if !closed || len(sites) == 0 {
+		return false
+	}
+	for _, cs := range sites {
+		if _, isCall := cs.(*ssa.Call); !isCall || !c08HeldUp(p, cs.(ssa.Instruction), field, depth-1) {
+			return false
+		}
+	}
+	return true
+}
+
+// c08IndexCriticalSections: in the index save role, the read of the tag map
+// that feeds the manifests (tagResolver.Map()), the assignment of
+// s.index.Manifests and the file write happen under one and the same exclusive
+// hold of a mutex of the store (the index lock: the mutex field held in write
+// mode at the file write) with no release in between.
+func c08IndexCriticalSections(p *Prog, r *c08Roles) []c08CritSec {
+	var out []c08CritSec
+	st, _ := r.store.Underlying().(*types.Struct)
+	for S := range r.savers {
+		cs := c08CritSec{Fn: S, Key: FnName(S) + "|snapshot-assignment-write-one-critical-section", Pos: S.Pos()}
+		// the three kinds of points, as instructions of S (a helper call stands for what it contains)
+		var snaps, assigns, writes []ssa.Instruction
+		containsMap := func(g *ssa.Function) bool {
+			for _, h := range c09ReachableInPkg(g, 2) {
+				res := c08StoreFieldLoads(h, r.store, "tagResolver")
+				for _, mc := range Calls(h, func(n string) bool {
+					return n == c08nResMap || n == "(*~/internal/resolver.Memory).TagSet" || n == "(*~/internal/resolver.Memory).Resolve"
+				}) {
+					if res[mc.Common().Args[0]] {
+						return true
+					}
+				}
+			}
+			return false
+		}
+		res := c08StoreFieldLoads(S, r.store, "tagResolver")
+		AllInstrs(S, func(in ssa.Instruction) {
+			switch u := in.(type) {
+			case *ssa.Store:
+				if fa, ok := u.Addr.(*ssa.FieldAddr); ok && strings.HasSuffix(fieldName(fa.X.Type(), fa.Field), "ocispec.Index.Manifests") {
+					assigns = append(assigns, in)
+				}
+			case *ssa.Call:
+				n := CalleeName(u)
+				g := StaticCallee(u)
+				switch {
+				case (n == c08nResMap || n == "(*~/internal/resolver.Memory).TagSet") && len(u.Call.Args) > 0 && res[u.Call.Args[0]]:
+					snaps = append(snaps, in)
+				case g != nil && r.indexWriter[g], c08FileWriters[n]:
+					writes = append(writes, in)
+				case g != nil && g != S && fnPkgPath(g) == pkgPath(c08Pkg) && len(g.Blocks) > 0 && containsMap(g):
+					snaps = append(snaps, in)
+				}
+			}
+		})
+		if len(snaps) == 0 || len(writes) == 0 || len(assigns) == 0 || st == nil {
+			cs.OK, cs.Why = false, "the snapshot of the tag map, the assignment of s.index.Manifests or the file write was not found in the index save function"
+			out = append(out, cs)
+			continue
+		}
+		// the index lock: a mutex field of the store held exclusively at every file write
+		lock := ""
+		for i := 0; i < st.NumFields(); i++ {
+			tn := st.Field(i).Type().String()
+			if tn != "sync.Mutex" && tn != "sync.RWMutex" {
+				continue
+			}
+			all := true
+			for _, w := range writes {
+				all = all && c08HeldUp(p, w, st.Field(i).Name(), 2)
+			}
+			if all {
+				lock = st.Field(i).Name()
+			}
+		}
+		if lock == "" {
+			cs.OK, cs.Why, cs.Pos = false, "index.json is written without an exclusively held mutex of the store", writes[0].Pos()
+			out = append(out, cs)
+			continue
+		}
+		cs.OK = true
+		for _, pt := range append(append([]ssa.Instruction{}, snaps...), assigns...) {
+			if !c08HeldUp(p, pt, lock, 2) {
+				cs.OK, cs.Pos = false, pt.Pos()
+				cs.Why = "s." + lock + " is not held at " + p.Pos(pt.Pos()) + " where the tag map is read / s.index.Manifests is assigned, although it guards the file write: the snapshot is taken outside the critical section"
+			}
+		}
+		// no release of the lock between the snapshot and the write
+		if cs.OK {
+			AllInstrs(S, func(in ssa.Instruction) {
+				call, ok := in.(*ssa.Call)
+				if !ok {
+					return
+				}
+				if op, recv := lockOp(call); (op == "U" || op == "RU") && strings.HasSuffix(accessPath(recv), "."+lock) {
+					for _, sn := range snaps {
+						for _, w := range writes {
+							if Reachable(sn, in) && Reachable(in, w) {
+								cs.OK, cs.Pos = false, in.Pos()
+								cs.Why = "s." + lock + " is released at " + p.Pos(in.Pos()) + " between the snapshot of the tag map and the file write"
+							}
+						}
+					}
+				}
+			})
+		}
+		cs.How = "the tag map is read, s.index.Manifests assigned and index.json written under one exclusive hold of s." + lock
+		out = append(out, cs)
+	}
+	return out
+}
